@@ -45,11 +45,11 @@ func FuncKey(fn *types.Func) string {
 
 // Lowerer lowers the functions of one package.
 type Lowerer struct {
-	Pkg      *packages.Package
-	Info     *types.Info
-	params   map[*types.Var]int
-	binders  map[*types.Var]bool
-	opaques  int
+	Pkg       *packages.Package
+	Info      *types.Info
+	params    map[*types.Var]int
+	binders   map[*types.Var]bool
+	opaques   int
 	OpaqueLog []*Opaque
 }
 
@@ -149,8 +149,10 @@ func (l *Lowerer) block(stmts []ast.Stmt, n ast.Node) *Block {
 }
 
 // desugarContinue rewrites the statement list of a loop body so that an unlabelled `continue` disappears:
-//   if C { A; continue }; REST   is   if C { A } else { REST }     (if !C { REST } when A is empty)
-//   a trailing `continue` is dropped; statements after a bare `continue` are dead.
+//
+//	if C { A; continue }; REST   is   if C { A } else { REST }     (if !C { REST } when A is empty)
+//	a trailing `continue` is dropped; statements after a bare `continue` are dead.
+//
 // Only the top level of the body (and the else blocks it builds) is treated; anything else stays opaque.
 func desugarContinue(list []ast.Stmt) []ast.Stmt {
 	isCont := func(s ast.Stmt) bool {
